@@ -41,7 +41,7 @@ CONTROL = {"FailStepException", "TransitionEvent", "self.FailStepException",
            "self.TransitionEvent"}
 
 
-def check(run, P):
+def _check_main(run, P):
     run.rule("C11.finally", "every exit of run_single_step after the phase body "
              "started passes the per-step cleanup", minimum=1)
     run.rule("C11.filter", "the cleanup walks a snapshot of all store keys and keeps "
@@ -257,3 +257,9 @@ def _locals(run, P):
     run.ob("C11.locals", f, f.node, ok,
            construct="phase functions take ('self',) only",
            why="no state is threaded through arguments")
+
+
+def check(run, P):
+    _check_main(run, P)
+    from . import generic
+    generic.lints(run, P, "C11")
